@@ -68,11 +68,18 @@ class C10(BpCheck):
             'distinct = distinct (table, sequence)')
 
 
+def _c11_with_composition(tier, seed):
+    traces, metas = bp_cases.c11_executions(tier, seed)
+    from harness.drivers import comp_cases
+    (xs, _us, _ys, cmetas) = comp_cases.executions(tier, seed)
+    return [('BpTrace', traces, metas), ('BpTrace', xs, [dict(m, node='X') for m in cmetas])]
+
+
 class C11(BpCheck):
     prop = 'C11'
     enforced = {'C11'}
     devs = ('stale_hop_count',)
-    gen = staticmethod(bp_cases.c11_executions)
+    gen = staticmethod(_c11_with_composition)
     what = ('received bundles routed forward with previous-node x hop-count x age blocks in {0,1,2}^3, unknown block '
             '0/1, three numberings, CRC types, zero/non-zero creation time (quick: 220 sampled of 972 mixes), clock '
             'advanced before forwarding; the transmitted octets are read independently')
